@@ -3,6 +3,49 @@ import Rbgp.Gr.Restarting.Spec
 namespace Rbgp.C11
 open Rbgp Rbgp.Term Rbgp.Gr.Restarting Rbgp.Gr.Restarting.Codec
 
+/-! `bfs` mode (generator support): every reachable state of the model machine for the given
+    configuration × every input of the alphabet, each state driven along a shortest input path. -/
+
+def powerset : List Nat → List (List Nat)
+  | [] => [[]]
+  | a :: l => let r := powerset l; r ++ r.map (a :: ·)
+
+def alphabet (peers : List Peer) (fams : List Fam) : List RIn :=
+  peers.flatMap (fun p => (powerset fams).map (RIn.est p) ++ fams.map (RIn.eor p) ++ [RIn.wd p]) ++ [RIn.timer]
+
+def canonState : RInner → RInner
+  | .awaiting p d => .awaiting (canonPending p) d
+  | .deferring p => .deferring (canonPending p)
+  | .completed => .completed
+
+partial def bfsLoop (alpha : List RIn) (frontier : List (RInner × List RIn)) (seen : List RInner)
+    (acc : List (List RIn)) : List (List RIn) :=
+  match frontier with
+  | [] => acc
+  | (m, path) :: rest =>
+      let succs := alpha.map fun i => ((canonState (process m i).1), path ++ [i])
+      let acc' := acc ++ succs.map (·.2)
+      let (seen', fresh) := succs.foldl (fun (sf : List RInner × List (RInner × List RIn)) s =>
+        if sf.1.contains s.1 then sf else (s.1 :: sf.1, sf.2 ++ [s])) (seen, [])
+      bfsLoop alpha (rest ++ fresh) seen' acc'
+
+/-- `(bfs (peers ...) (dur ..) (pre ev...) (post ev...))` ↦ newline-separated case lines -/
+def bfsCases (t : Term) : Option String :=
+  match t with
+  | .list [.atom "bfs", .list (.atom "peers" :: ps), .list [.atom "dur", d], .list (.atom "pre" :: pre),
+           .list (.atom "post" :: post)] => do
+      let peers ← ps.mapM cfgPeerOf?
+      let dur ← asOpt? asNat? d
+      let pre ← pre.mapM evOf?
+      let post ← post.mapM evOf?
+      let cfg : Cfg := { peers := peers, dur := dur }
+      let m0 := canonState (Rbgp.Gr.Restarting.new peers dur).1
+      let ps := (peers.map (·.1) ++ [maxPeer - 1]).eraseDups
+      let fs := (List.range maxFam)
+      let paths := bfsLoop (alphabet ps fs) [(m0, [])] [m0] []
+      pure ("\n".intercalate (paths.map fun p => toStr (caseT cfg (pre ++ p.map Ev.rd ++ post))))
+  | _ => none
+
 def verdictStr : Spec.Verdict → String
   | .ok => "ok"
   | .fail i c => s!"fail step={i} clause={c}"
@@ -25,6 +68,7 @@ def handler (mode : String) (line : String) : String :=
               | none => if toStr o == "(bad-case)" then "(bad-case)" else "fail step=0 clause=unparsable-observation"
           | none => "(bad-case)"
       | _ => "(bad-line)"
+  | "bfs" => ((parse line).bind bfsCases).getD "(bad-case)"
   | _ => "(bad-mode)"
 
 end Rbgp.C11
